@@ -2,7 +2,7 @@
 import re
 
 from checkers import CB, EXHAUSTIVE, SPAWNS, Spawn, is_arg, noref
-from common import iter_places
+from common import bodies_with_closures, iter_places
 from mir import AnchorMissing, V
 
 LEVEL_TEXT = (
@@ -16,7 +16,7 @@ LEVEL_TEXT = (
     'necessary conditions; termination and schedule independence as theorems are NOT decided.')
 
 FLOORS = {'C05-R1': 6, 'C05-R2': 5, 'C05-R3': 1, 'C05-R4': 2, 'C05-R5': 2, 'C05-R6': 4,
-          'C05-R7': 4, 'C05-R8': 3, 'C05-R9': 1, 'C05-R10': 2, 'C01-R7': 5, 'C01-R10': 4}
+          'C05-R7': 4, 'C05-R8': 3, 'C05-R9': 1, 'C05-R10': 2, 'C05-R11': 3, 'C01-R7': 5, 'C01-R10': 4}
 
 BLOCKING = ('thread::sleep', 'JoinHandle::join', 'Receiver::recv', 'Receiver::recv_timeout',
             'Thread::park', 'thread::park', 'Condvar::wait', 'Condvar::wait_for', 'Condvar::wait_until',
@@ -428,8 +428,26 @@ def r9_empty_batch_is_shutdown_signal(ctx, F, rule='C05-R9'):
             fe = sp.branch(g, False)
             if fe and sp.edges_dominate(fe, pc.bb, frm=[g.bb]) and sp.dominates(g.bb, pc.bb):
                 ok = True
+        if not ok:
+            # ... or by arithmetic: the batch is `jobs.split_off(jobs.len() - size)` (exactly `size` jobs, or a
+            # panic) and `size != 0` on every path to the push
+            from common import edges_where
+            for o in bo:
+                if isinstance(o, (str, tuple)) or not o.is_('VecDeque::split_off') or len(o.args) != 2:
+                    continue
+                at = noref(sp.val(o.args[1]))
+                if at.kind != 'bin' or at.key[0] not in ('Sub', 'SubWithOverflow', 'SubUnchecked'):
+                    continue
+                ln, size = noref(at.key[1]), noref(at.key[2])
+                lc = sp.call_at(ln.key) if ln.kind == 'call' else None
+                if lc is None or not lc.is_('VecDeque::len') or \
+                        noref(sp.val(lc.args[0])) != noref(sp.val(o.args[0])):
+                    continue
+                nz = edges_where(sp, lambda v: noref(v) == size, lambda v: v.kind == 'const' and v.key == 0, 'ne')
+                if nz and sp.edges_dominate(nz, pc.bb) and len(bo) == 1:
+                    ok = True
         ctx.check(ok, rule, 'published-batch-is-non-empty', sp,
-                  good='a split-off batch is published only after is_empty() returned false',
+                  good='a split-off batch is published only when it is known to be non-empty (is_empty() false, or `size` jobs with size != 0)',
                   bad='split_and_push can publish an EMPTY batch: workers (%s) treat an empty batch from '
                       'pop() as "no more work", shut down and - through Drop - close the market and '
                       'discard the real batches: pending work is lost' % '/'.join(readers), span=pc.span)
@@ -465,6 +483,57 @@ def r10_initial_market(ctx, F, rule='C05-R10'):
               good='the market starts open', bad='JobBroker::new: the market does not start open')
 
 
+def r11_control_messages_lossless(ctx, F, rule='C05-R11'):
+    """On-demand workers sleep in recv() until told what to do; the one RunToCompletion message is what lets a
+    finite check terminate. So the control path must be lossless and complete: only blocking sends (a bounded
+    channel with try_send / send_timeout drops the message when the receiver is behind), and the forwarder hands
+    every message to every worker's channel."""
+    sp = Spawn(F, 'OD')
+    ctx.touched(sp.b)
+    bodies = bodies_with_closures(F, sp.b)
+    for b in F.bodies.values():
+        if b.kind != 'Closure' and re.search(r'OnDemandChecker<M> as .*Checker<M>>::(check_fingerprint|run_to_completion)$|'
+                                             r'OnDemandChecker::<M>::(check_fingerprint|run_to_completion)$', b.path):
+            bodies += bodies_with_closures(F, b)
+            ctx.touched(b)
+    sends, lossy = [], []
+    for b in bodies:
+        nb = F.norm(b)
+        for c in nb.calls:
+            if re.search(r'mpsc::(Sync)?Sender(::<.*>)?::send$', c.short):
+                sends.append((nb, c))
+            elif re.search(r'mpsc::(Sync)?Sender(::<.*>)?::(try_send|send_timeout)$', c.short):
+                lossy.append((nb, c))
+    if not sends and not lossy:
+        raise AnchorMissing('on-demand checker: sends on the control channels')
+    ctx.check(not lossy, rule, 'control-sends-block', sp.b,
+              good='control messages are sent with blocking / unbounded send only (%d sites)' % len(sends),
+              bad='on-demand checker: a control message is sent with %s: when the receiving worker is behind (asleep in '
+                  'the job market, busy with a block) the message is dropped - if it is RunToCompletion the worker '
+                  'then waits in recv() forever and join() never returns' %
+                  sorted(set(c.short.split('::')[-1] for (b_, c) in lossy)))
+    # the forwarder: an outer loop over received messages, an inner loop over the workers' channels, one send per turn
+    ok = False
+    for (nb, c) in sends + lossy:
+        heads = [h for h in nb.calls_to('Iterator::next') if nb.in_cycle(h.bb) and nb.dominates(h.bb, c.bb) and
+                 h.targs and 'Sender<' in h.targs[0]]
+        for h in heads:
+            some = nb.branch(h, 'Some')
+            r = nb.reach([e[1] for e in some], cut_blocks=[c.bb]) if some else {h.bb}
+            if h.bb not in r:
+                ok = True
+    ctx.check(ok, rule, 'forwarder-reaches-every-worker', sp.b,
+              good='the forwarder sends each control message on every worker channel',
+              bad='on-demand checker: the forwarder does not send each control message to every worker channel: a '
+                  'worker that never hears RunToCompletion waits forever')
+    # workers: the blocking receive is the only way they learn about it - its Err (channel closed) edge must leave
+    w = sp.worker
+    recvs = w.calls_to('Receiver::recv')
+    ctx.check(len(recvs) >= 1, rule, 'worker-blocks-in-recv', w,
+              good='workers wait for control messages with a blocking recv()',
+              bad='on-demand worker: no blocking recv() on the control channel')
+
+
 def run(ctx):
     F = ctx.facts
     ctx.doc('C05-R1', 'no blocking call inside a live range of the job-market MutexGuard (Condvar::wait '
@@ -495,6 +564,10 @@ def run(ctx):
     ctx.doc('C05-R10', 'JobBroker::new: open_count and thread_count start as the thread_count parameter; open = true')
     with ctx.rule('C05-R10', 'new'):
         r10_initial_market(ctx, F)
+    ctx.doc('C05-R11', 'on-demand control path is lossless: blocking sends only, forwarder reaches every worker channel, '
+                       'workers wait in a blocking recv')
+    with ctx.rule('C05-R11', 'on_demand'):
+        r11_control_messages_lossless(ctx, F)
     # "no pending unit of work is dropped": the frontier-conservation rules of C01
     import c01
     import c19
